@@ -97,6 +97,23 @@ def run(facts, rep, tier):
             rep.ob("C10.D2", "both-limits-read:%s" % cell, lo_read and hi_read,
                    "row pattern %s: both limit columns are compared" % psrc(clo["params"][0]) if lo_read and hi_read else
                    "search %s selects a row's type reading only %s of its limits (pattern %s): a one-sided bound picks a type narrower than the schema" % (cell, "the upper" if hi_read else "the lower" if lo_read else "none", psrc(clo["params"][0])), clo.get("sp"))
+            # path-sensitive: a row returned on a path that has not compared the row's upper limit must be the widest row,
+            # i.e. the search visits the table (ordered narrow -> wide) from its end
+            for x, xa in walk(body):
+                if x.get("k") == "call" and x.get("res") == "ctor" and (x.get("fn") or "").endswith("::Some") and x.get("args"):
+                    col = [nm_ for nm_ in (names[1], names[2]) if nm_ and reads(x["args"][0], nm_)]
+                    if not col:
+                        continue
+                    gtxt = " & ".join(g[1] for g in guards(xa, x) if g[0] in ("if", "else"))
+                    hi_on_path = names[4] is not None and re.search(r"\b%s\b" % re.escape(names[4]), gtxt) is not None
+                    if hi_on_path:
+                        continue
+                    recv = src(par.get("recv")) if par.get("k") == "mcall" else ""
+                    hip = [(r_["es"][4]["e"].get("path") if r_["es"][4].get("k") == "cast" else None) for r_ in rows]
+                    widest_first = recv.endswith(".iter().rev()") and hip[-1] == "u64::MAX" and hip.count("u64::MAX") == 1
+                    rep.ob("C10.D2", "unchecked-upper-limit-takes-widest-row:%s" % cell, widest_first,
+                           "the `%s` column is returned without comparing the row's upper limit, from a search that starts at the widest row (`.iter().rev()`, last row = u64)" % col[0] if widest_first else
+                           "search %s returns the `%s` column of the first row visited without comparing its upper limit, and visits `%s`: the narrowest row wins, so values up to the schema's maximum do not fit" % (cell, col[0], recv[-40:]), x.get("sp") or clo.get("sp"))
             # D3: NonZero column only under min == 1
             if names[2] is not None:
                 for x, xa in walk(body):
